@@ -56,6 +56,15 @@ def inUnverifiable (net : Net) (n : UInt64) : Bool :=
   | some (lo, hi) => lo ≤ n && n ≤ hi
   | none => false
 
+/-- the fallback sequencer addresses `VerifyBlockHash` tries, in order: zero, then the network's -/
+def fallbackAddrs (net : Net) : List Term :=
+  (.felt 0) :: (match net.fallbackSeq with | some f => [f] | none => [])
+
+/-- the `overrideSeqAddr` arguments `VerifyBlockHash` can pass to `BlockHash` for this block: none when
+the header has a sequencer address, else one of the fallbacks -/
+def overridesOf (net : Net) (b : Block) : List (Option Term) :=
+  if b.header.sequencer.isNone then (fallbackAddrs net).map some else [none]
+
 /-- the loop over fallback sequencer addresses at the end of `core.VerifyBlockHash`. -/
 def tryFallbacks (net : Net) (b : Block) (sd : StateDiff) (skip : Bool) : List Term → Except Reject Unit
   | [] => .error .blockHash
@@ -74,7 +83,7 @@ def verifyBlockHash (net : Net) (b : Block) (sd : StateDiff) : Except Reject Uni
     match (if skip then .ok () else verifyTransactionsE net.chainId b.txs b.header.version) with
     | .error e => .error e
     | .ok () =>
-      tryFallbacks net b sd skip ((.felt 0) :: (match net.fallbackSeq with | some f => [f] | none => []))
+      tryFallbacks net b sd skip (fallbackAddrs net)
 
 /-- `Blockchain.SanityCheckNewHeight`. -/
 def sanityCheck (net : Net) (B : Bundle) : Except Reject Unit :=
@@ -140,17 +149,22 @@ def openedAt {σ : Type} (empty cur : σ) (root : Term) : σ := if root = .felt 
 the diff is applied to: as the code is, the state opened at the caller-supplied `OldRoot`, which
 makes `verifyComm(OldRoot)` compare `OldRoot` with itself when it is zero. (`empty` abstracts
 "empty tries over the current flat state".) -/
-def storeTxnNewBackend {σ : Type} (sem : StateSem σ) (empty : σ) (c : Chain σ) (B : Bundle) : Except Reject (Chain σ) :=
+def storeTxnNewBackendWith {σ : Type} (opensAtHeadRoot : Bool) (sem : StateSem σ) (empty : σ) (c : Chain σ) (B : Bundle) :
+    Except Reject (Chain σ) :=
   match verifySuccession c.head B.block.header with
   | .error e => .error e
   | .ok () =>
-    let st := if newBackendOpensAtHeadRoot then c.st else openedAt empty c.st B.su.oldRoot
+    let st := if opensAtHeadRoot then c.st else openedAt empty c.st B.su.oldRoot
     if sem.root st B.block.header.version ≠ B.su.oldRoot then .error .state
     else match sem.apply st B.block.header.number B.su.diff B.classes with
       | none => .error .state
       | some st' =>
         if sem.root st' B.block.header.version ≠ B.su.newRoot then .error .state
         else .ok ⟨some ⟨B.block.header.number, B.block.header.hash⟩, st', B :: c.stored⟩
+
+/-- the new backend's `Store` of the code as it is -/
+def storeTxnNewBackend {σ : Type} (sem : StateSem σ) (empty : σ) (c : Chain σ) (B : Bundle) : Except Reject (Chain σ) :=
+  storeTxnNewBackendWith newBackendOpensAtHeadRoot sem empty c B
 
 /-- `SanityCheckNewHeight` then `Store`, as the synchroniser calls them. -/
 def accept {σ : Type} (sem : StateSem σ) (net : Net) (c : Chain σ) (B : Bundle) : Except Reject (Chain σ) :=
@@ -196,5 +210,98 @@ def dbWrite (store : Bytes → Option Bytes) (steps : List Step) : (Bytes → Op
   match runSteps store steps [] with
   | some batch => (applyBatch store batch, true)
   | none => (store, false)
+
+/-! ## `Store` as its concrete list of writes (blockchain/statebackend/{statebackend,deprecated,block_ops}.go)
+
+The callback of `database.Write/Update` in `Store`, step by step, in the order of the code:
+`verifyBlockSuccession` (reads only), `state.Update` (state / trie / history keys), then
+`writeBlockContent`: `WriteBlockHeader` (header by number + number by hash),
+`WriteTransactionsAndReceipts`, `WriteStateUpdateByBlockNum`, `WriteBlockCommitment`,
+`WriteL1HandlerMsgHashes`, `storeCasmHashMetadata`, `WriteChainHeight`, and finally
+`runningFilter.InsertWithBatch`. Every step receives the batch; besides its logical verdict
+(`successionOK`, `stateOK`) each step can fail on I/O (`ioFail k`). The harness ties this to the
+code by fault injection: it makes the k-th batch operation of a valid block's `Store` fail, for
+every k, and compares the database byte for byte. -/
+
+inductive Bucket
+  | chainHeight | headerByNumber | numberByHash | txsAndReceipts | stateUpdate | commitments
+  | l1HandlerMsgHashes | casmMetadata | state | eventFilter
+deriving DecidableEq, Repr
+
+abbrev DKey := Bucket × Nat
+abbrev DB := DKey → Option Nat
+abbrev WBatch := List (DKey × Option Nat)     -- puts (some v) / deletes (none), oldest first
+
+def DB.applyBatch (db : DB) (b : WBatch) : DB :=
+  b.foldl (fun d op => fun k => if k = op.1 then op.2 else d k) db
+
+/-- what `Store` is asked to write (contents abstracted to numbers) -/
+structure StoreInput where
+  number : Nat
+  hashId : Nat
+  header : Nat
+  body : Nat
+  su : Nat
+  commitments : Nat
+  l1msgs : List (Nat × Nat)
+  casm : List (Nat × Nat)
+  stateWrites : List (Nat × Option Nat)
+  bloom : Nat
+  successionOK : Bool
+  stateOK : Bool
+
+/-- a step of the callback: whether it succeeds, and the writes it appends to the batch -/
+abbrev SStep := Bool × WBatch
+
+/-- the ten steps of the callback; `ioFail k` makes step `k` fail on I/O -/
+def storeSteps (i : StoreInput) (ioFail : Nat → Bool) : List SStep :=
+  [ (i.successionOK && !ioFail 0, []),
+    (i.stateOK && !ioFail 1, i.stateWrites.map (fun w => ((Bucket.state, w.1), w.2))),
+    (!ioFail 2, [((.headerByNumber, i.number), some i.header), ((.numberByHash, i.hashId), some i.number)]),
+    (!ioFail 3, [((.txsAndReceipts, i.number), some i.body)]),
+    (!ioFail 4, [((.stateUpdate, i.number), some i.su)]),
+    (!ioFail 5, [((.commitments, i.number), some i.commitments)]),
+    (!ioFail 6, i.l1msgs.map (fun m => ((Bucket.l1HandlerMsgHashes, m.1), some m.2))),
+    (!ioFail 7, i.casm.map (fun m => ((Bucket.casmMetadata, m.1), some m.2))),
+    (!ioFail 8, [((.chainHeight, 0), some i.number)]),
+    (!ioFail 9, [((.eventFilter, 0), some i.bloom)]) ]
+
+/-- run the steps in order: the first failing step aborts the callback -/
+def runSSteps : List SStep → WBatch → Option WBatch
+  | [], b => some b
+  | (ok, ops) :: rest, b => if ok then runSSteps rest (b ++ ops) else none
+
+/-- `database.Write(fn)` / `Update(fn)`: the batch is written only when `fn` returned nil -/
+def dbStore (db : DB) (i : StoreInput) (ioFail : Nat → Bool) : DB × Bool :=
+  match runSSteps (storeSteps i ioFail) [] with
+  | some b => (db.applyBatch b, true)
+  | none => (db, false)
+
+/-! ## Histories with reverts
+
+`RevertHead` pops the head block; that it restores exactly the previous state is property C04 and is
+assumed here: a node is the stack of its chain snapshots. -/
+
+inductive Op
+  | offer (B : Bundle)
+  | revert
+
+structure NodeSt (σ : Type) where
+  cur : Chain σ
+  prev : List (Chain σ)      -- snapshots before each stored block, newest first
+
+def stepOp {σ : Type} (sem : StateSem σ) (net : Net) (n : NodeSt σ) : Op → NodeSt σ
+  | .offer B =>
+    match accept sem net n.cur B with
+    | .ok c' => ⟨c', n.cur :: n.prev⟩
+    | .error _ => n
+  | .revert =>
+    match n.prev with
+    | p :: ps => ⟨p, ps⟩
+    | [] => n                 -- RevertHead on an empty chain fails
+
+def runOps {σ : Type} (sem : StateSem σ) (net : Net) : NodeSt σ → List Op → NodeSt σ
+  | n, [] => n
+  | n, o :: rest => runOps sem net (stepOp sem net n o) rest
 
 end Juno.C02
